@@ -401,7 +401,8 @@ class Node(object):
         server.cust = False
         server.busy = False
         individual.server = False
-        server.busy_time = self.increment_time(server.busy_time, individual.exit_date - individual.service_start_date)
+        server.busy_time = self.increment_time(server.busy_time, (individual.exit_date - individual.service_start_date) - server.busy_time_at_wrap_up)
+        server.busy_time_at_wrap_up = 0
         server.total_time = self.now - server.start_date
         if server.offduty:
             self.kill_server(server)
@@ -452,12 +453,11 @@ class Node(object):
         if isinf(self.c) or self.c == 0:
             self.server_utilisation = None
         else:
-            for server in self.servers:
-                self.all_servers_total.append(server.total_time)
-                self.all_servers_busy.append(server.busy_time)
-            total_time = sum(self.all_servers_total)
+            all_servers_total = self.all_servers_total + [server.total_time for server in self.servers]
+            all_servers_busy = self.all_servers_busy + [server.busy_time for server in self.servers]
+            total_time = sum(all_servers_total)
             if total_time > 0:
-                self.server_utilisation = sum(self.all_servers_busy) / total_time
+                self.server_utilisation = sum(all_servers_busy) / total_time
             else:
                 self.server_utilisation = None
 
@@ -857,7 +857,9 @@ class Node(object):
             for srvr in self.servers:
                 srvr.total_time = self.increment_time(current_time, -srvr.start_date)
                 if srvr.busy:
-                    srvr.busy_time = self.increment_time(srvr.busy_time, self.increment_time(current_time, -srvr.cust.service_start_date))
+                    busy_so_far = self.increment_time(current_time, -srvr.cust.service_start_date)
+                    srvr.busy_time = self.increment_time(srvr.busy_time, busy_so_far - srvr.busy_time_at_wrap_up)
+                    srvr.busy_time_at_wrap_up = busy_so_far
 
     def write_individual_record(self, individual):
         """
